@@ -57,8 +57,8 @@ def type_name(t):
     return TYPE_NAMES.get(t, "type%d" % t)
 
 
-HOSTILE_LO, HOSTILE_HI = 60, 70
-UNENCODABLE = [60, 61, 62, 63, 64, 65, 66]     # what a FileDestination (orjson + json_default) cannot write
+HOSTILE_LO, HOSTILE_HI = 60, 71
+UNENCODABLE = [60, 61, 62, 63, 64, 65, 66, 70]     # what a FileDestination (orjson + json_default) cannot write
 
 
 class _Handled(Exception):
@@ -72,6 +72,24 @@ class Hostile(object):
     __repr__ = __str__
 
 
+class OneShot(object):
+    """an application's one-shot iterator: logging it must not advance it"""
+    def __init__(self):
+        self.taken = 0
+
+    def __iter__(self):
+        return self
+
+    def __next__(self):
+        self.taken += 1
+        if self.taken > 3:
+            raise StopIteration
+        return self.taken
+
+
+ONESHOT = OneShot()
+
+
 def _deep(n):
     x = []
     for _ in range(n):
@@ -80,7 +98,7 @@ def _deep(n):
 
 
 HOSTILE = {60: Hostile(), 61: 2 ** 64, 62: b"by\xfftes", 63: "lone\ud800surrogate", 64: object(), 65: _deep(300),
-           66: {1: "non-string key"}, 67: float("nan"), 68: {"a-set-member"}, 69: complex(1, -2)}
+           66: {1: "non-string key"}, 67: float("nan"), 68: {"a-set-member"}, 69: complex(1, -2), 70: ONESHOT}
 HOSTILE_ID = {id(v): k for k, v in HOSTILE.items()}
 
 
@@ -1060,6 +1078,9 @@ def _check_renders(self):
                     self.notes.append("render_mismatch:dest%s" % did)
             else:
                 last = m
+    if ONESHOT.taken:
+        self.notes.append("caller_dict_mutated:an iterator passed as a field value was advanced by %d items" % ONESHOT.taken)
+        ONESHOT.taken = 0
 
 
 Interp.check_renders = _check_renders
